@@ -314,6 +314,8 @@ class MTVRPEnv(RL4COEnvBase):
             td["time_windows"][..., :, 0] + d_j0 + td["service_time"]
             <= td["time_windows"][..., 0, 1, None]
         ), "vehicle cannot perform service and get back to depot in time."
+        # the last route also has to get back to the depot: close it so that its length / time are checked
+        actions = torch.cat((actions, torch.zeros_like(actions[:, :1])), dim=1)
         # check individual time windows
         curr_time = torch.zeros(batch_size, dtype=torch.float32, device=td.device)
         curr_node = torch.zeros(batch_size, dtype=torch.int64, device=td.device)
